@@ -1281,6 +1281,37 @@ mut("C12", "SILENT_piece_base_minus", SUBR, """                low_byte: sub_siz
                 size: base_size - sub_size,""", """                low_byte: sub_size,
                 size: base_size - sub_register.size,""", [], "same size through the field")
 mut("C02", "mult_overflow_min_regress", BVX, "            if is_minus_one_times_min || result.clone().into_checked_sdiv(self).unwrap() != *rhs {", "            if result.clone().into_checked_sdiv(self).unwrap() != *rhs {", ["R9|signed_mult_with_overflow_flag"], "reverts fix 79656db")
+mut("C12", "stack_alignment_const_fixed_width", L + "analysis/stack_alignment_substitution/mod.rs", "                        (ApInt::from_i64(offset)).into_resize_unsigned(bitmask.bytesize()),", "                        (ApInt::from_i64(offset)).into_resize_unsigned(ByteSize::new(8)),", ["R1|substitute|rewrite"], "offset constant always 8 bytes wide")
+
+# ---------------- round-3 additions
+C367 = L + "checkers/cwe_367.rs"
+M.append(("C17", "cwe367_dedup_by_sink", {"edits": [
+    {"file": C367, "find": "            for edge in graph.edge_references() {", "replace": "            let mut seen_sinks = std::collections::HashSet::new();\n            for edge in graph.edge_references() {"},
+    {"file": C367, "find": """                            ) {
+                                let source_callsite = graph[edge.target()].get_block().tid.clone();""", "replace": """                            ) {
+                                if !seen_sinks.insert(sink_callsite.clone()) {
+                                    continue;
+                                }
+                                let source_callsite = graph[edge.target()].get_block().tid.clone();"""}],
+    "expect": ["R3|cwe367|verdict-per-check-call"], "desc": "one warning per use callsite: check calls on parallel branches lose their warning"}))
+M.append(("C17", "SILENT_cwe367_dedup_by_source", {"edits": [
+    {"file": C367, "find": "            for edge in graph.edge_references() {", "replace": "            let mut seen_sources = std::collections::HashSet::new();\n            for edge in graph.edge_references() {"},
+    {"file": C367, "find": """                            ) {
+                                let source_callsite = graph[edge.target()].get_block().tid.clone();""", "replace": """                            ) {
+                                if !seen_sources.insert(jmp.tid.clone()) {
+                                    continue;
+                                }
+                                let source_callsite = graph[edge.target()].get_block().tid.clone();"""}],
+    "expect": [], "desc": "de-duplication keyed by the check call itself cannot couple different check calls"}))
+C560 = L + "checkers/cwe_560.rs"
+mut("C18", "umask_arg_masked", C560, "fn is_chmod_style_arg(arg: u64) -> bool {", "fn is_chmod_style_arg(arg: u64) -> bool {\n    let arg = arg & 0o777;", ["R1|umask|accepted-set"], "verdict on arg & 0o777")
+mut("C18", "umask_arg_mod", C560, "fn is_chmod_style_arg(arg: u64) -> bool {", "fn is_chmod_style_arg(arg: u64) -> bool {\n    let arg = arg % 0o10000;", ["R1|umask|accepted-set"], "verdict on arg modulo 0o10000")
+FS = L + "analysis/function_signature/mod.rs"
+mut("C14", "entry_state_standard_cconv", FS, """                    let calling_convention = project
+                        .get_specific_calling_convention(&sub.term.calling_convention)
+                        .expect("No standard calling convention found.");""", """                    let calling_convention = project
+                        .get_standard_calling_convention()
+                        .expect("No standard calling convention found.");""", ["R1|generate_fixpoint_computation|entry-state"], "entry state from the standard calling convention")
 
 for prop, name, spec in M:
     if name.startswith("SILENT_"):
